@@ -495,6 +495,7 @@ var funcSubst = map[string]string{
 	"math/rand/v2.New":     "simrt.RandNew",
 	"net.Dial":             "simrt.NetDial",
 	"runtime.SetFinalizer": "simrt.SetFinalizer",
+	"crypto/sha1.Sum":      "simrt.SHA1Sum",
 	"log.New":              "simrt.LogNew",
 	"golang.org/x/net/proxy.FromURL": "simrt.ProxyFromURL",
 }
@@ -503,6 +504,8 @@ var methodSubst = map[string]string{
 	"(*net.Dialer).DialContext": "simrt.DialContext",
 	"(*net/http.Client).Do":     "simrt.HTTPDo",
 	"(*sync.Map).Range":         "simrt.SyncMapRange",
+	"(*sync.Pool).Get":          "simrt.PoolGet",
+	"(*sync.Pool).Put":          "simrt.PoolPut",
 }
 
 // same-package renames (companion files define the Sim* variants)
